@@ -34,7 +34,7 @@ def ref_evaluate(layers, i, x, F, maximize, count_f):
     L = layers[i]
     if L.kind == "cutoff":
         if bool(L.n >= L.N):  # forks; the implementation's own test of the same term follows the same branch
-            return ite(maximize, -math.inf, math.inf) if is_sym(maximize) else (-math.inf if maximize else math.inf)
+            return -math.inf if bool(maximize) else math.inf  # forks on the direction exactly like the implementation
     v = ref_evaluate(layers, i + 1, x, F, maximize, count_f)
     L.n = L.n + 1
     if L.kind == "precision":
@@ -124,7 +124,7 @@ BOUNDS = {"quick": {"stack_depth": "<= 2 (all 20 stacks) + 12 depth-3 stacks", "
                     "optimum/precision": "symbolic float64, precision >= 0 finite"},
           "thorough": {"stack_depth": "<= 3 (all 84 stacks) + 40 depth-4 stacks", "calls": 5}}
 OUTSIDE = ["depth-4 stacks outside the listed sample", "more than 5 calls", "objectives returning NaN", "non-finite precision"]
-ASSUMPTIONS = ["objective deterministic, never NaN, does not distinguish -0.0 from +0.0 (uninterpreted function F)"]
+ASSUMPTIONS = ["profile 'real': fitness / optimum / precision are mathematical reals (the wrappers only pass values through and compare |f - opt| <= eps; rounding of that one subtraction is outside the claim)", "objective deterministic, never NaN, does not distinguish -0.0 from +0.0 (uninterpreted function F)"]
 
 
 def cases(tier):
@@ -140,6 +140,6 @@ def cases(tier):
     step = max(1, len(extra) // (12 if tier == "quick" else 40))
     stacks += extra[::step]
     for s in stacks:
-        cs.append(dict(name="stack." + "/".join(s), fn=h_stack, params=dict(kinds=list(s), m=m), profile="fp", oblig_timeout_s=120,
+        cs.append(dict(name="stack." + "/".join(s), fn=h_stack, params=dict(kinds=list(s), m=m), profile="real", oblig_timeout_s=120,
                        budget_s=900, weight=len(s)))
     return cs
